@@ -1,15 +1,28 @@
 from pyvc.runner import Prop, Fn, Lem, Ground, Native
-from props.rewrite_common import ASSUMPTIONS
+from props.rewrite_common import ASSUMPTIONS, SEM_ASSUMPTIONS, SEM_LEMMAS
 
+PRED = ['HplPredicateExpression', 'HplVacuousTruth', 'HplContradiction']
+_P = 'hpl.ast.predicates.HplPredicate.'
 PROP = Prop(
     'C13',
-    modules=[],
-    tasks=[],
-    bounded=[Native('bounded.rewrite_native.combinators_semantics')],
-    level='exploration',
-    explanation='BOUNDED ONLY at this commit: the real function(s) compared with the reference semantics on the expression '
-                'corpus x a grid of valuations (labelled bounded, nothing counted as proved); contracts for the rewriting '
-                'helpers are being added function by function.',
-    assumptions=ASSUMPTIONS,
-    trusted_base=['bounded.evaluator reference semantics', 'CPython'],
+    modules=['contracts.rewrite_c13'],
+    tasks=[
+        *[Lem(l) for l in SEM_LEMMAS],
+        *[Fn(_P + 'negate', classes=PRED, safety_tag='C14')],
+        *[Fn(_P + 'join', classes=PRED, safety_tag='C14')],
+    ],
+    bounded=[Native('bounded.rewrite_native.combinators_semantics'),
+             Native('bounded.rewrite_native.sem_axioms_hold'),
+             Native('bounded.native_tasks.predicate_constructor_contract')],
+    level='other',
+    dep_tags=['C14'],
+    explanation='PROVED (unbounded, the three predicate classes): negate() denotes logical negation and join() logical '
+                'conjunction on every valuation (truth-value semantics specs/sem.py), the vacuous truth is the identity and '
+                'the contradiction the annihilator of join. ASSUMED: the contract of HplPredicateExpression.__init__ (its '
+                'validators group references by printed form: outside the translated subset; evaluated natively), which may '
+                'raise TypeError. BOUNDED ONLY: the this<->variable replacements (generic deep replacement through reshape '
+                'with closures), their inverse law and the event alias normalisation, against the reference evaluator.',
+    assumptions=ASSUMPTIONS + SEM_ASSUMPTIONS + ['assumed contract: HplPredicateExpression.__init__ (may raise TypeError; '
+                                                 'stores the condition narrowed to BOOL)'],
+    trusted_base=['z3 5.1.0', 'cvc5 1.0.3', 'pyvc symbolic executor', 'bounded.evaluator reference semantics', 'CPython'],
 )
